@@ -85,6 +85,7 @@ def run_property(pid: str, tier: str, seed: int, write_lock=False, verbose=False
     coarse = {}
     undecided = []
     refuted = []
+    solver_errors = []
     dead = 0
     vacuous = []
     by_backend = {}
@@ -108,7 +109,9 @@ def run_property(pid: str, tier: str, seed: int, write_lock=False, verbose=False
             elif res["result"] == "sat":
                 refuted.append((r, ob))
             else:
-                undecided.append({"obligation": cid, "reason": "solver: " + str(res.get("tried"))})
+                if res.get("solver_error"):
+                    solver_errors.append(f"{cid}: {res.get('tried')[0][1][:160]}")
+                undecided.append({"obligation": cid, "reason": "solver: " + str(res.get("tried"))[:300]})
         for ob in r.covers:
             res = ob.result
             if res is None:
@@ -245,6 +248,9 @@ def run_property(pid: str, tier: str, seed: int, write_lock=False, verbose=False
         print(f"KNOWN-FINDING: property={pid} {k['what']}")
     if vacuous:
         print("checker error: vacuous contract(s):", vacuous)
+        return 3
+    if solver_errors:
+        print("checker error: malformed solver input:", solver_errors[:3])
         return 3
     if n_total == 0:
         print("checker error: zero obligations generated")
